@@ -135,7 +135,7 @@ func cat(xs ...[]op) []op {
 	return out
 }
 
-var lives = []string{"fresh", "clone", "clone-then-config", "changed", "switch", "clone-reconfig", "fork", "usertls", "twohosts", "closereq", "proxy"}
+var lives = []string{"fresh", "clone", "clone-then-config", "changed", "switch", "clone-reconfig", "fork", "usertls", "twohosts", "closereq", "proxy", "fingerprint"}
 
 // requests to the origin's name h (0 = localhost, 1 = 127.0.0.1), optionally carrying Connection: close
 func rq(h int, cl bool) []op { return []op{{K: "req", H: h, C: cl}} }
@@ -294,6 +294,25 @@ func matrix(specs []srvSpec) []cell {
 								case 3: // Connection: close through the tunnel, a throw-away clone without the proxy
 									ops = cat(tlsOps(setter, ts.T, nil), po, on, rq(a, true), rq(a, false), rq(b, true),
 										[]op{{K: "fork", F: &op{K: "proxy"}}}, rq(b, false))
+								}
+							case "fingerprint":
+								// a utls fingerprint handshake (SetTLSFingerprintChrome) is installed: the TCP handshakes still follow
+								// the client's settings of the moment - the clone's on a clone, whatever the original's are
+								fp := []op{{K: "fp"}}
+								switch (si + ti + force) % 4 {
+								case 0:
+									ops = cat(tlsOps(setter, ts.T, nil), po, fp, rq(0, false), rq(1, false), rq(0, false))
+								case 1: // clone, then settings that differ between original and clone
+									ops = cat(tlsOps("set", other.T, nil), fp, po, []op{{K: "clone"}}, tlsOps("set", ts.T, &other.T), rq(0, false), rq(1, false))
+								case 2: // the ORIGINAL is changed after cloning; settings changed after first use
+									ops = cat(fp, tlsOps(setter, ts.T, nil), po, rq(0, false),
+										[]op{{K: "clone", F: &op{K: "settls", TLS: &other.T}}}, rq(0, false),
+										tlsOps("set", other.T, &ts.T), []op{{K: "closeidle"}}, rq(0, false))
+								case 3: // together with the proxy; the fingerprint replaced by a caller's handshake and back
+									pk = 1 + (si+force)%2
+									us := userSpecs[(si+ti+force)%len(userSpecs)]
+									ops = cat(tlsOps(setter, ts.T, nil), po, fp, []op{{K: "proxy", B: true}}, rq(0, false), rq(1, false),
+										[]op{{K: "handshake", TLS: &us}, {K: "closeidle"}}, rq(0, false), fp, []op{{K: "closeidle"}}, rq(0, false))
 								}
 							case "fork":
 								// a differently configured clone is used and dropped; the original must not notice
